@@ -13,8 +13,10 @@ CLAIMED = {
             "kani+cbmc bounded model checking per shape, counterexamples replayed natively"),
     "C12": ("E1 kani-cbmc", "4 C12",
             "Bounded model checking of Ord::cmp against an independent exact reference of Erlang's term order (integer-arithmetic "
-            "int-vs-float comparison, type-rank table, bit-wise bit-strings, cons-cell lists) for all values of each shape pair.",
-            "kani+cbmc differential check against a reference order, counterexamples replayed natively"),
+            "int-vs-float comparison, type-rank table, bit-wise bit-strings, cons-cell lists) for all values of each shape pair. E2: the MIR of "
+            "<OwnedTerm as Ord>::cmp on tuples and lists of 0..3 integers (thorough 4; CBMC runs out of memory on 2-element containers): size first "
+            "then element-wise for tuples, element-wise then length for lists, all i64 elements.",
+            "kani+cbmc differential check against a reference order, counterexamples replayed natively; MIR->SMT for wider tuples/lists"),
     "C20": ("E1 kani-cbmc", "4 C20",
             "Bounded model checking of ElixirRange::{is_empty,len,contains}, RangeIterator::{next,size_hint}: overflow/panic freedom for all "
             "i64 first/last/step/value; agreement of len/contains/iteration with a 128-bit reference for all i64 bounds and a set of "
